@@ -891,6 +891,25 @@ func init() {
 	reg("math.Exp", f1(math.Exp))
 	reg("math.Log", f1(math.Log))
 	reg("math.Abs", f1(math.Abs))
+	f2 := func(f func(float64, float64) float64) intrinsicFn {
+		return func(e *Engine, fr *frame, fn *ssa.Function, a []Value) Value {
+			x, ok1 := a[0].(float64)
+			y, ok2 := a[1].(float64)
+			if !ok1 || !ok2 {
+				return Opaque{"float intrinsic on symbolic"}
+			}
+			return f(x, y)
+		}
+	}
+	for _, n := range []string{"math.Max", "math.archMax", "math.max"} {
+		reg(n, f2(math.Max))
+	}
+	for _, n := range []string{"math.Min", "math.archMin", "math.min"} {
+		reg(n, f2(math.Min))
+	}
+	reg("math.Mod", f2(math.Mod))
+	reg("math.Hypot", f2(math.Hypot))
+	reg("math.archHypot", f2(math.Hypot))
 	reg("math.Pow", func(e *Engine, fr *frame, fn *ssa.Function, a []Value) Value {
 		x, ok1 := a[0].(float64)
 		y, ok2 := a[1].(float64)
